@@ -57,6 +57,18 @@ Theorem C09_compose : forall rs, Forall scalar rs ->
   exists bs, compose rs = Ok (dc_of_label (best rs), bs) /\ parse (dc_of_label (best rs), bs) = Ok rs.
 Proof. exact compose_parse. Qed.
 
+(* Compose on a REUSED ShortMessage value m (filled in before by an earlier
+   Compose or by decoding a PDU): either the text does not fit and m is left
+   alone, or label and octets are both replaced and parse back to the text -
+   independently of what m held *)
+Theorem C09_compose_reused : forall m rs, Forall scalar rs ->
+  (forall r, In r rs -> mem r (known_bad_of (best rs)) = false) ->
+  (best rs = LGsm7 -> g7_clear rs) ->
+  (snd (compose_step m rs) = 1 /\ fst (compose_step m rs) = m) \/
+  (snd (compose_step m rs) = 0 /\ fst (fst (compose_step m rs)) = dc_of_label (best rs) /\
+   parse (fst (compose_step m rs)) = Ok rs).
+Proof. exact compose_step_parse. Qed.
+
 (* the alphabet table of each coding of the priority list is inside the set its
    encoder accepts, up to the committed known-bad set *)
 Theorem C09_alphabets_included :
